@@ -235,6 +235,23 @@ func TestVerifSCReplay(t *testing.T) {
 	rec.out.Emit(map[string]interface{}{"ev": "done", "vectors": n})
 }
 
+// scProbeInvalidRival re-observes the recorded finding C13-invalid-utf8-rival: two known values that differ only in a byte
+// that is not valid UTF-8 are the same text to the diff library (both bytes read U+FFFD); the rival scores 1.0 over the
+// verbatim copy's range, sorts first by name and uniquify drops the verbatim one.
+func scProbeInvalidRival(rec *scRec) {
+	c := New(0.8)
+	c.AddValue("value-00", "permission is hereby granted \x80 free of charge (see *.txt)")
+	c.AddValue("value-01", "permission is hereby granted \x81 free of charge (see *.txt)")
+	u := "some leading words permission is hereby granted \x81 free of charge (see *.txt) and trailing words"
+	got := ""
+	found := false
+	for _, m := range c.MultipleMatch(u) {
+		got += fmt.Sprintf("{%s %.2f %d+%d}", m.Name, m.Confidence, m.Offset, m.Extent)
+		found = found || (m.Name == "value-01" && m.Confidence == 1.0 && m.Offset == 19 && m.Extent == 57)
+	}
+	rec.out.Emit(map[string]interface{}{"ev": "probe", "id": "C13-invalid-utf8-rival", "input": u, "observed": got, "ideal": "{value-01 1.00 19+57} among the matches", "deviates": !found})
+}
+
 // TestVerifSCTrace: seeded larger cases -- values of 1..60+ tokens over small and large vocabularies,
 // punctuation, metacharacters, Unicode, invalid UTF-8; unknowns built around verbatim copies.
 func TestVerifSCTrace(t *testing.T) {
@@ -243,6 +260,9 @@ func TestVerifSCTrace(t *testing.T) {
 	rng := rand.New(rand.NewSource(vuSeed()))
 	skip := vuEnvInt("VERIF_SKIP", 0)
 	cases := vuEnvInt("VERIF_CASES", 120)
+	if skip == 0 {
+		scProbeInvalidRival(rec)
+	}
 	vocabs := [][]string{
 		{"alpha", "beta", "gamma"},
 		{"the", "quick", "brown", "fox", "jumps", "over", "lazy", "dog", "while", "license", "grants", "you", "rights", "to", "copy", "modify", "and", "distribute", "software", "without", "warranty"},
